@@ -43,3 +43,52 @@ MUTANTS = {
     ('mangle-on-error', [('lib/carbon/cache.py', "      log.msg('Error parsing metric %s: %s' % (metric, err))\n", "      log.msg('Error parsing metric %s: %s' % (metric, err))\n      metric = metric.split(';')[0]\n")]),
   ],
 }
+
+P = 'lib/carbon/protocols.py'
+CL = 'lib/carbon/client.py'
+MUTANTS.update({
+  'C01': [
+    ('no-strip-split-space', [(P, "      metric, value, timestamp = line.strip().split()\n      datapoint = (float(timestamp), float(value))\n    except ValueError:\n      if isinstance(line, bytes):  # not valid utf-8\n        line = line.decode('utf-8', 'replace')\n      if len(line) > 400:\n        line = line[:400] + '...'\n      log.listener('invalid line received from client",
+                               "      metric, value, timestamp = line.strip().split(' ')\n      datapoint = (float(timestamp), float(value))\n    except ValueError:\n      if isinstance(line, bytes):  # not valid utf-8\n        line = line.decode('utf-8', 'replace')\n      if len(line) > 400:\n        line = line[:400] + '...'\n      log.listener('invalid line received from client")]),
+    ('swap-ts-value-pickle', [(P, "datapoint = (float(value), float(timestamp))  # force proper types", "datapoint = (float(timestamp), float(value))  # force proper types")]),
+    ('pickle-break', [(P, "        log.listener('Error decoding pickle: %s' % e)\n        continue", "        log.listener('Error decoding pickle: %s' % e)\n        break")]),
+    ('pickle-no-float', [(P, "datapoint = (float(value), float(timestamp))  # force proper types", "datapoint = (float(value), float(timestamp)); datapoint = (value, timestamp)")]),
+    ('decode-per-segment', [(P, "class MetricLineReceiver(MetricReceiver, LineOnlyReceiver):\n  plugin_name = \"line\"\n  delimiter = b'\\n'\n",
+                             "class MetricLineReceiver(MetricReceiver, LineOnlyReceiver):\n  plugin_name = \"line\"\n  delimiter = b'\\n'\n\n  def dataReceived(self, data):\n    data = data.decode('utf-8', 'ignore').encode('utf-8')\n    return LineOnlyReceiver.dataReceived(self, data)\n")]),
+    ('udp-split-newline-only', [(P, "    for line in data.splitlines():\n      try:\n        if sys.version_info >= (3, 0):\n          line = line.decode('utf-8')",
+                                 "    for line in data.split(b'\\n'):\n      try:\n        if sys.version_info >= (3, 0):\n          line = line.decode('utf-8')\n        if not line: raise ValueError('x')")]),
+    ('ts-int-truncated', [(P, "      datapoint = (float(timestamp), float(value))\n    except ValueError:\n      if isinstance(line, bytes):  # not valid utf-8\n        line = line.decode('utf-8', 'replace')\n      if len(line) > 400:\n        line = line[:400] + '...'\n      log.listener('invalid line received from client",
+                           "      datapoint = (float(int(float(timestamp))), float(value))\n    except ValueError:\n      if isinstance(line, bytes):  # not valid utf-8\n        line = line.decode('utf-8', 'replace')\n      if len(line) > 400:\n        line = line[:400] + '...'\n      log.listener('invalid line received from client")]),
+  ],
+  'C11': [
+    ('narrow-except-pickle', [(P, "    except Exception as exc:\n      log.listener('invalid pickle received", "    except (pickle.UnpicklingError, ValueError, IndexError, ImportError, KeyError, EOFError) as exc:\n      log.listener('invalid pickle received")]),
+    ('return-after-bad-entry', [(P, "        log.listener('Error decoding pickle: %s' % e)\n        continue", "        log.listener('Error decoding pickle: %s' % e)\n        return")]),
+    ('nonfinite-ts-raises', [(P, "    except (ValueError, OverflowError):  # NaN or infinite timestamp, drop like any other invalid datapoint\n      return", "    except (ValueError,):  # NaN\n      return")]),
+    ('udp-whole-decode', [(P, "    for line in data.splitlines():\n      try:\n        if sys.version_info >= (3, 0):\n          line = line.decode('utf-8')", "    data = data.decode('utf-8')\n    for line in data.splitlines():\n      try:\n        if False:\n          line = line.decode('utf-8')")]),
+    ('udp-stop-at-first-bad', [(P, "        log.listener('invalid line received from %s, ignoring [%s]' %\n                     (host, repr(line.strip())[1:-1]))", "        log.listener('invalid line received from %s, ignoring [%s]' %\n                     (host, repr(line.strip())[1:-1]))\n        break")]),
+    ('disconnect-on-bad-line', [(P, "      log.listener('invalid line received from client %s, ignoring [%s]' %\n                   (self.peerName, repr(line.strip())[1:-1]))\n      return", "      log.listener('invalid line received from client %s, ignoring [%s]' %\n                   (self.peerName, repr(line.strip())[1:-1]))\n      if len(line) > 300:\n        self.transport.loseConnection()\n      return")]),
+    ('accept-two-fields', [(P, "      metric, value, timestamp = line.strip().split()\n      datapoint = (float(timestamp), float(value))\n    except ValueError:\n      if isinstance(line, bytes):  # not valid utf-8\n        line = line.decode('utf-8', 'replace')\n      if len(line) > 400:\n        line = line[:400] + '...'\n      log.listener('invalid line received from client",
+                            "      metric, value, timestamp = (line.strip().split() + ['0'])[:3]\n      datapoint = (float(timestamp), float(value))\n    except ValueError:\n      if isinstance(line, bytes):  # not valid utf-8\n        line = line.decode('utf-8', 'replace')\n      if len(line) > 400:\n        line = line[:400] + '...'\n      log.listener('invalid line received from client")]),
+  ],
+  'C12': [
+    ('search-to-match', [('lib/carbon/regexlist.py', "if regex.search(value):", "if regex.match(value):")]),
+    ('whitelist-when-empty', [(P, "if WhiteList and metric not in WhiteList:", "if metric not in WhiteList:")]),
+    ('nan-test-on-ts', [(P, "if datapoint[1] != datapoint[1]:  # filter out NaN values", "if datapoint[0] != datapoint[0]:  # filter out NaN values")]),
+    ('floor-div-to-div', [(P, "datapoint = (int(datapoint[0]) // res * res, datapoint[1])", "datapoint = (int(datapoint[0]) / res * res, datapoint[1])")]),
+    ('round-instead-of-floor', [(P, "datapoint = (int(datapoint[0]) // res * res, datapoint[1])", "datapoint = (int(round(datapoint[0] / float(res))) * res, datapoint[1])")]),
+    ('white-before-black', [(P, "    if BlackList and metric in BlackList:\n      instrumentation.increment('blacklistMatches')\n      return\n    if WhiteList and metric not in WhiteList:\n      instrumentation.increment('whitelistRejects')\n      return\n",
+                             "    if WhiteList and metric not in WhiteList:\n      instrumentation.increment('whitelistRejects')\n      return\n    if BlackList and metric in BlackList:\n      instrumentation.increment('blacklistMatches')\n      return\n")]),
+    ('minus-one-after-floor', [(P, "    if timestamp == -1:\n      datapoint = (time.time(), datapoint[1])\n    res = settings.MIN_TIMESTAMP_RESOLUTION\n    if res:\n      datapoint = (int(datapoint[0]) // res * res, datapoint[1])\n",
+                                "    res = settings.MIN_TIMESTAMP_RESOLUTION\n    if res:\n      datapoint = (int(datapoint[0]) // res * res, datapoint[1])\n    if timestamp == -1:\n      datapoint = (time.time(), datapoint[1])\n")]),
+    ('reload-keeps-old-on-empty', [('lib/carbon/regexlist.py', "    self.regex_list = new_regex_list\n", "    if new_regex_list:\n      self.regex_list = new_regex_list\n")]),
+  ],
+  'C15': [
+    ('precision-6', [(CL, '"%.10f" % datapoint[1]', '"%.6f" % datapoint[1]')]),
+    ('percent-g', [(CL, 'value = ("%.10f" % datapoint[1]).rstrip(\'0\').rstrip(\'.\')', 'value = "%g" % datapoint[1]')]),
+    ('no-rstrip-dot', [(CL, "rstrip('0').rstrip('.')", "rstrip('0.')")]),
+    ('int-format-floats', [(CL, "      if isinstance(datapoint[1], float):\n", "      if isinstance(datapoint[1], float) and datapoint[1] != int(datapoint[1]) if abs(datapoint[1]) < 1e300 else True:\n")]),
+    ('pickle-protocol-unsafe', [(CL, "self.sendString(pickle.dumps(datapoints, protocol=2))", "self.sendString(pickle.dumps([(m, (d[0], __import__('decimal').Decimal(d[1]) if isinstance(d[1], int) and d[1] > 10**6 else d[1])) for m, d in datapoints], protocol=2))")]),
+    ('batch-drops-overflow', [(CL, "      for _ in range(settings.MAX_DATAPOINTS_PER_MESSAGE):\n        try:\n          yield self.queue.popleft()", "      for _ in range(settings.MAX_DATAPOINTS_PER_MESSAGE):\n        try:\n          if len(self.queue) == 13:\n            self.queue.popleft()\n          yield self.queue.popleft()")]),
+    ('ts-rounded', [(CL, 'to_send = "%s %s %d" % (metric, value, datapoint[0])', 'to_send = "%s %s %d" % (metric, value, round(datapoint[0]))')]),
+  ],
+})
